@@ -91,6 +91,7 @@ template<class EigenVectorType>
 void RingOfEigenVector<EigenVectorType>::clear()
 {
   ring_.clear();
+  ringIndex_ = -1;
 }
 
 //-----------------------------------------------------------------------------
